@@ -229,9 +229,22 @@ def _construct_internal_shapes(
 
 
 def _cleanup_run_folder(run_folder: str | Path) -> None:
-    """Remove the run folder and its contents."""
+    """Remove the run folder and its contents.
+
+    The folder is first moved aside in a single step and then deleted, such that
+    an interrupted cleanup never leaves a partially deleted run behind that a
+    later ``cleanup=False`` run would pick up.
+    """
     run_folder = Path(run_folder)
-    shutil.rmtree(run_folder, ignore_errors=True)
+    if not run_folder.exists():
+        return
+    trash = run_folder.with_name(f"{run_folder.name}.removing")
+    shutil.rmtree(trash, ignore_errors=True)
+    try:
+        os.replace(run_folder, trash)  # noqa: PTH105
+    except OSError:  # e.g., `run_folder` is a mount point or the parent is read-only
+        trash = run_folder
+    shutil.rmtree(trash, ignore_errors=True)
 
 
 def _compare_to_previous_run_info(
